@@ -175,4 +175,186 @@ theorem deliverGo_eq (n : Nat) (a : State) (o s : Nat) :
     simp only [visitP, List.foldl_append, List.any_append, List.any_map, Bool.false_or]
     rfl
 
+/-! ### the visited pairs, declaratively -/
+
+/-- the forest facts of `WF` that relate `children` (walked top-down by the code) to `parent` /
+`chain` (the declarative reading); `host` is not involved, so they also hold in the middle of
+`__exit__` -/
+structure Tree (st : State) : Prop where
+  child_spec : ∀ p c, c ∈ (st.scopes p).children →
+    (st.scopes c).active = true ∧ (st.scopes c).parent = some p
+  child_conv : ∀ p c, (st.scopes c).active = true → (st.scopes c).parent = some p →
+    c ∈ (st.scopes p).children
+  chain_spec : ∀ s, (st.scopes s).entered = true → (st.scopes s).chain =
+    s :: (match (st.scopes s).parent with | none => [] | some p => (st.scopes p).chain)
+  active_entered : ∀ s, (st.scopes s).active = true → (st.scopes s).entered = true
+  chain_len : ∀ s, (st.scopes s).chain.length ≤ st.nScopes
+
+theorem WF.tree {st : State} (h : WF st) : Tree st :=
+  ⟨h.child_spec, h.child_conv, h.chain_spec, h.active_entered, chain_length_le h⟩
+
+theorem Tree.congr {a b : State} (h : Tree a) (hn : b.nScopes = a.nScopes)
+    (hs : ∀ s, (b.scopes s).children = (a.scopes s).children ∧
+      (b.scopes s).active = (a.scopes s).active ∧ (b.scopes s).parent = (a.scopes s).parent ∧
+      (b.scopes s).entered = (a.scopes s).entered ∧ (b.scopes s).chain = (a.scopes s).chain) :
+    Tree b := by
+  constructor
+  · intro p c; rw [(hs p).1, (hs c).2.1, (hs c).2.2.1]; exact h.child_spec p c
+  · intro p c; rw [(hs p).1, (hs c).2.1, (hs c).2.2.1]; exact h.child_conv p c
+  · intro s; rw [(hs s).2.2.2.1, (hs s).2.2.2.2, (hs s).2.2.1]
+    intro he; rw [h.chain_spec s he]
+    cases (a.scopes s).parent with
+    | none => rfl
+    | some p => simp only [(hs p).2.2.2.2]
+  · intro s; rw [(hs s).2.1, (hs s).2.2.2.1]; exact h.active_entered s
+  · intro s; rw [(hs s).2.2.2.2, hn]; exact h.chain_len s
+
+theorem Tree.frame {a b : State} (h : Tree a) (f : Frame a b) : Tree b :=
+  h.congr f.nScopes (fun s => ⟨(f.scopes s).children, (f.scopes s).active, (f.scopes s).parent,
+    (f.scopes s).entered, (f.scopes s).chain⟩)
+
+theorem mem_visitP_succ {st : State} {n s c t : Nat} :
+    (c, t) ∈ visitP st (n + 1) s ↔
+      (c = s ∧ t ∈ (st.scopes s).tasks) ∨
+      ∃ d, d ∈ (st.scopes s).children ∧ okChild st d = true ∧ (c, t) ∈ visitP st n d := by
+  simp only [visitP, List.mem_append, List.mem_map, List.mem_flatMap, Prod.mk.injEq]
+  constructor
+  · rintro (⟨u, hu, rfl, rfl⟩ | ⟨d, hd, hm⟩)
+    · exact .inl ⟨rfl, hu⟩
+    · right
+      refine ⟨d, hd, ?_⟩
+      split at hm
+      · rename_i hk; exact ⟨hk, hm⟩
+      · simp at hm
+  · rintro (⟨rfl, hu⟩ | ⟨d, hd, hk, hm⟩)
+    · exact .inl ⟨t, hu, rfl, rfl⟩
+    · exact .inr ⟨d, hd, by simpa [hk] using hm⟩
+
+/-- the scopes visited with fuel `n` from `s` -/
+def visitS (st : State) : Nat → Nat → List Nat
+  | 0, _ => []
+  | n + 1, s => s :: (st.scopes s).children.flatMap
+      (fun c => if okChild st c then visitS st n c else [])
+
+theorem mem_visitS_succ {st : State} {n s c : Nat} :
+    c ∈ visitS st (n + 1) s ↔
+      c = s ∨ ∃ d, d ∈ (st.scopes s).children ∧ okChild st d = true ∧ c ∈ visitS st n d := by
+  simp only [visitS, List.mem_cons, List.mem_flatMap]
+  constructor
+  · rintro (rfl | ⟨d, hd, hm⟩)
+    · exact .inl rfl
+    · right
+      refine ⟨d, hd, ?_⟩
+      split at hm
+      · rename_i hk; exact ⟨hk, hm⟩
+      · simp at hm
+  · rintro (rfl | ⟨d, hd, hk, hm⟩)
+    · exact .inl rfl
+    · exact .inr ⟨d, hd, by simpa [hk] using hm⟩
+
+theorem mem_visitP_visitS {st : State} {n s c t : Nat} :
+    (c, t) ∈ visitP st n s ↔ c ∈ visitS st n s ∧ t ∈ (st.scopes c).tasks := by
+  induction n generalizing s with
+  | zero => simp [visitP, visitS]
+  | succ n ih =>
+    rw [mem_visitP_succ, mem_visitS_succ]
+    constructor
+    · rintro (⟨rfl, hu⟩ | ⟨d, hd, hk, hm⟩)
+      · exact ⟨.inl rfl, hu⟩
+      · exact ⟨.inr ⟨d, hd, hk, (ih.mp hm).1⟩, (ih.mp hm).2⟩
+    · rintro ⟨(rfl | ⟨d, hd, hk, hm⟩), hu⟩
+      · exact .inl ⟨rfl, hu⟩
+      · exact .inr ⟨d, hd, hk, ih.mpr ⟨hm, hu⟩⟩
+
+theorem visitS_mono {st : State} {n s c : Nat} (h : c ∈ visitS st n s) :
+    c ∈ visitS st (n + 1) s := by
+  induction n generalizing s with
+  | zero => simp [visitS] at h
+  | succ n ih =>
+    rw [mem_visitS_succ] at h ⊢
+    rcases h with rfl | ⟨d, hd, hk, hm⟩
+    · exact .inl rfl
+    · exact .inr ⟨d, hd, hk, ih hm⟩
+
+theorem visitS_mono_le {st : State} {n m s c : Nat} (hnm : n ≤ m) (h : c ∈ visitS st n s) :
+    c ∈ visitS st m s := by
+  induction hnm with
+  | refl => exact h
+  | step _ ih => exact visitS_mono ih
+
+/-- a visited scope's eligible children are visited with one more unit of fuel -/
+theorem visitS_extend {st : State} {n s p c : Nat} (h : p ∈ visitS st n s)
+    (hc : c ∈ (st.scopes p).children) (hk : okChild st c = true) : c ∈ visitS st (n + 1) s := by
+  induction n generalizing s with
+  | zero => simp [visitS] at h
+  | succ n ih =>
+    rw [mem_visitS_succ] at h
+    rw [mem_visitS_succ]
+    rcases h with rfl | ⟨d, hd, hkd, hm⟩
+    · right
+      refine ⟨c, hc, hk, ?_⟩
+      rw [mem_visitS_succ]; exact .inl rfl
+    · exact .inr ⟨d, hd, hkd, ih hm⟩
+
+/-- top-down implies bottom-up -/
+theorem reachDown_of_visitS {st : State} (w : Tree st) {n s c : Nat} (h : c ∈ visitS st n s) :
+    reachDown st s c := by
+  induction n generalizing s with
+  | zero => simp [visitS] at h
+  | succ n ih =>
+    rw [mem_visitS_succ] at h
+    rcases h with rfl | ⟨d, hd, hk, hm⟩
+    · exact .refl
+    · have ⟨ha, hp⟩ := w.child_spec s d hd
+      simp only [okChild, Bool.and_eq_true, Bool.not_eq_eq_eq_not, Bool.not_true] at hk
+      exact reachDown_trans (.step hp ha hk.1 hk.2 .refl) (ih hm)
+
+/-- bottom-up implies top-down, with the depth read off the chains -/
+theorem visitS_of_reachDown {st : State} (w : Tree st) {s c : Nat} (h : reachDown st s c) :
+    ∃ k, c ∈ visitS st (k + 1) s ∧
+      (k = 0 ∨ (st.scopes c).chain.length = (st.scopes s).chain.length + k) := by
+  induction h with
+  | refl => exact ⟨0, by rw [mem_visitS_succ]; exact .inl rfl, .inl rfl⟩
+  | @step c p hp ha hs hc _ ih =>
+    obtain ⟨k, hk, hl⟩ := ih
+    refine ⟨k + 1, visitS_extend hk (w.child_conv p c ha hp) (by simp [okChild, hs, hc]), .inr ?_⟩
+    have e := w.chain_spec c (w.active_entered c ha)
+    rw [hp] at e
+    simp only [] at e
+    rw [e, List.length_cons]
+    rcases hl with rfl | hl
+    · have : c ∈ visitS st 1 s → True := fun _ => trivial
+      rw [mem_visitS_succ] at hk
+      rcases hk with rfl | ⟨d, _, _, hm⟩
+      · omega
+      · simp [visitS] at hm
+    · omega
+
+/-- with fuel `nScopes + 1` the walk visits exactly the tasks of the scopes `reachDown` from `s` -/
+theorem mem_visitP_iff {st : State} (w : Tree st) {s c t : Nat} :
+    (c, t) ∈ visitP st (st.nScopes + 1) s ↔ reachDown st s c ∧ t ∈ (st.scopes c).tasks := by
+  rw [mem_visitP_visitS]
+  constructor
+  · rintro ⟨h, hu⟩; exact ⟨reachDown_of_visitS w h, hu⟩
+  · rintro ⟨h, hu⟩
+    refine ⟨?_, hu⟩
+    obtain ⟨k, hk, hl⟩ := visitS_of_reachDown w h
+    refine visitS_mono_le ?_ hk
+    rcases hl with rfl | hl
+    · omega
+    · have := w.chain_len c; omega
+
+/-- the flag returned by `_deliver_cancellation`: some task that is not done sits in a scope the
+walk reaches -/
+theorem deliverGo_flag {st : State} (w : Tree st) (o : Nat) :
+    (deliverGo (st.nScopes + 1) st o o).2 = true ↔ needs st o := by
+  rw [deliverGo_eq]
+  simp only [List.any_eq_true, Prod.exists]
+  constructor
+  · rintro ⟨c, t, hm, hd⟩
+    have := (mem_visitP_iff w).mp hm
+    exact ⟨c, t, this.1, this.2, by simpa [notDone] using hd⟩
+  · rintro ⟨c, t, hr, ht, hd⟩
+    exact ⟨c, t, (mem_visitP_iff w).mpr ⟨hr, ht⟩, by simpa [notDone] using hd⟩
+
 end AnyioModel.Kernel
